@@ -16,6 +16,9 @@ func init() {
 }
 
 func runC14(e *Engine, r *Report) {
+	// borrowed mechanisms (session 6, round 8): the stream validator's final verdict gates finalize (C15); the import tool recomputes the payload checksum of the image it imports (C20)
+	borrow(e, r, "C15", "GD-chunk-finalize")
+	borrow(e, r, "C20", "TBL-import-validators")
 	// ---- validators gate
 	n := checkValidatorGates(e, r, "VAL-snapshot", []string{
 		"internal/rsm.validateBlock", "internal/rsm.validateHeader",
